@@ -307,6 +307,23 @@ def clause_C(check, prog):
     check.require(ok, 'C-zero-in-list', 'propagate',
                   'a zero distance in a list contributes the input image itself '
                   '(stacked along z)', loc)
+    # ... and every slice keeps its own z label: nothing relabels / reorders
+    # the stack after the concatenation
+    relabel = []
+    for x in subterms(body):
+        if x[0] == 'call' and isinstance(x[1], tuple) and x[1][0] == 'attr' and \
+                x[1][2] in ('assign_coords', 'reindex', 'sortby', 'rename',
+                            'reset_index', 'set_index', 'assign', 'roll', 'shift') \
+                and calls_in(x[1][1], 'xarray.concat'):
+            relabel.append(x[1][2])
+        if x[0] == 'upd' and x[2] == 'item' and x[3] == ('const', 'z') and \
+                calls_in(x[1], 'xarray.concat'):
+            relabel.append("['z'] = ...")
+    check.require(not relabel, 'C-zero-in-list', 'propagate stack labels',
+                  'after stacking, each slice keeps the z label it was computed for',
+                  loc, fail_detail='the stacked result is relabelled by %s: the '
+                  'input image (always stacked first) gets the label of whatever '
+                  'distance is listed first' % relabel)
 
 
 def clause_D(check, prog, canon):
